@@ -164,3 +164,23 @@ int commit_good(int fd, int fast) {
     if (ctl_sync(fd) != 0) return -1;
     return 0;
 }
+
+/* ---- R19 units */
+void grow_bad(int16_t* levels, size_t old_cap, size_t new_cap) {
+    memset((uint8_t*)levels + old_cap, 0, (new_cap - old_cap) * sizeof(int16_t));   /* element count as byte offset */
+}
+void grow_good(int16_t* levels, size_t old_cap, size_t new_cap) {
+    memset((uint8_t*)levels + old_cap * sizeof(int16_t), 0, (new_cap - old_cap) * sizeof(int16_t));
+}
+
+/* ---- R20 endian */
+uint32_t assemble_bad(const uint8_t* p, int nbytes) {
+    uint32_t v = 0;
+    for (int i = 0; i < nbytes; i++) v = (v << 8) | p[i];
+    return v;
+}
+uint32_t assemble_good(const uint8_t* p, int nbytes) {
+    uint32_t v = 0;
+    for (int i = 0; i < nbytes; i++) v |= (uint32_t)p[i] << (i * 8);
+    return v;
+}
